@@ -61,4 +61,45 @@ def runUpdatePathAll (body : Stmt) (C : Callees) (e : EOracle) (fuel : Nat) (s :
 def runHandleCommandAll (body : Stmt) (C : Callees) (e : EOracle) (fuel : Nat) (s : St) (c : Cmd) : Option St :=
   runHandleCommandXD body (calleesVX C e fuel) e fuel (cmdDepth c + 1) s c
 
+/-! ### the `Run` loop with the frame step's callees interpreted down to the handler calls -/
+
+/-- `bRunFrame` with `mh.update` and `a.fh.updatePath` run from their bodies WITH their callees run from theirs. -/
+def bRunFrameAll (B : Bodies) (C : Callees) (e : EOracle) (fuel : Nat) (s : St) (t1 t2 : STree) : Option (St × Bool) :=
+  if !s.redraw then some (s, false) else
+  let s := { s with redraw := false, trace := s.trace ++ [.draw] }
+  match runMouseUpdateAll B.mouseUpdate C e (fuel + 1) s t1 with
+  | none => none
+  | some x =>
+    if x.2 then some x else
+    let s := x.1
+    let r : St × STree :=
+      if s.redraw then ({ s with redraw := false, trace := s.trace ++ [.draw] }, t2) else (s, t1)
+    let t := sortTree r.2
+    let s := { r.1 with refresh := false, debug := false }
+    match runUpdatePathAll B.updatePath C e fuel s t with
+    | none => none
+    | some s => some ({ s with lastFrame := t }, false)
+
+def bRunStepAll (B : Bodies) (C : Callees) (e : EOracle) (fuel : Nat) (s : St) : Step → Option (St × Bool)
+  | .ev ev => bRunEvent B e fuel s ev
+  | .frame t1 t2 => bRunFrameAll B C e fuel s t1 t2
+
+def bRunStepsAll (B : Bodies) (C : Callees) (e : EOracle) (fuel : Nat) : St → List Step → Option (St × Bool)
+  | s, [] => some (s, false)
+  | s, st :: rest =>
+    match bRunStepAll B C e fuel s st with
+    | none => none
+    | some r =>
+      if r.2 then some r else
+      match st with
+      | .ev _ => if r.1.quit then some r else bRunStepsAll B C e fuel r.1 rest
+      | .frame _ _ => bRunStepsAll B C e fuel r.1 rest
+
+/-- `App.Run` over the interpreted bodies, the frame step's callees (`hitTest`, `containsPoint`, `findPath`, `childHasFocus`,
+    `focusWidget`) interpreted too. -/
+def bRunAll (B : Bodies) (C : Callees) (e : EOracle) (fuel : Nat) (root : Id) (t0 : STree) (steps : List Step) : Option (St × Bool) :=
+  match bRunInit B e fuel root t0 with
+  | none => none
+  | some r => if r.2 then some r else bRunStepsAll B C e fuel r.1 steps
+
 end VaxisModel.Model.VxfwInterp
